@@ -102,7 +102,7 @@ func c04Build(sh c04shape) (*core.Context, *core.Location, *c04app, map[string]i
 	store := lib.MemStore(ctx)
 	loc := lib.MustLoc(ctx, sh.State, "L", store)
 	// facts for the condition
-	for i := 0; i < sh.Cond; i++ {
+	for i := 0; i < sh.Cond && sh.Cond <= 2; i++ {
 		if _, err := loc.AddFact(ctx, fmt.Sprintf("f%d", i), core.Map{"c": fmt.Sprintf("c%d", i)}); err != nil {
 			panic(err)
 		}
@@ -121,6 +121,12 @@ func c04Build(sh c04shape) (*core.Context, *core.Location, *c04app, map[string]i
 		rule := map[string]interface{}{"when": map[string]interface{}{"pattern": lib.CopyMap(when)}}
 		if sh.Cond >= 0 {
 			rule["condition"] = map[string]interface{}{"pattern": map[string]interface{}{"c": "?y"}}
+		}
+		if sh.Cond == 3 {
+			// a disjunction of code terms: one disjunct adds the variable z, the other
+			// adds nothing - two binding sets that must stay apart
+			rule["condition"] = map[string]interface{}{"or": []interface{}{
+				map[string]interface{}{"code": "({z:1})"}, map[string]interface{}{"code": "true"}}}
 		}
 		var acts []interface{}
 		nact := sh.Actions
@@ -148,11 +154,16 @@ func c04Build(sh c04shape) (*core.Context, *core.Location, *c04app, map[string]i
 					ys = append(ys, fmt.Sprintf("c%d", i))
 				}
 			}
+			if sh.Cond == 3 {
+				ys = []string{"", "<z>"}
+			}
 			for _, y := range ys {
 				for a := 0; a < nact; a++ {
 					tag := fmt.Sprintf("%s-a%d", rid, a+1)
 					seen := map[string]interface{}{"x": x, "event": event, "location": "L", "ruleId": rid}
-					if y != "" {
+					if y == "<z>" {
+						seen["z"] = 1.0
+					} else if y != "" {
 						seen["y"] = y
 					}
 					expected = append(expected, tag+"|"+lib.Canon(seen))
@@ -309,11 +320,14 @@ func c04Scenarios(tier string) []*lib.SchedScenario {
 	for _, state := range []string{"indexed", "linear"} {
 		for _, rules := range []int{1, 2} {
 			for _, wn := range []int{1, 2} {
-				for _, cond := range []int{-1, 0, 1, 2} {
+				for _, cond := range []int{-1, 0, 1, 2, 3} {
 					for _, acts := range []int{1, 2, 3} {
 						for _, serial := range []bool{false, true} {
 							if tier == "quick" && state == "linear" && (rules == 2 || cond == 0) {
 								continue
+							}
+							if cond == 3 && (rules == 2 || (tier == "quick" && wn == 2)) {
+								continue // the code-disjunction condition: one rule is enough
 							}
 							scs = append(scs, c04Scenario(c04shape{rules, wn, cond, acts, serial, 0, state}, bound))
 							if rules == 2 && serial && cond != 0 {
@@ -333,7 +347,7 @@ func init() {
 	lib.Register(&lib.Check{
 		ID:    "C04",
 		Level: "model_checking",
-		Rule: "all shapes {1..2 rules} x {1,2 when-bindings} x {no condition, condition yielding 0/1/2 bindings} x {1 action, 2 actions, 2 actions the first throwing} x serialActions off/on/only-r1/only-r2 x state, each event processed under the controlled scheduler with deviation bound 1 (quick) / 2 (thorough); oracle: recorded executions (tag + visible variables) = expected multiset, work tree nodes, Values, dispositions, no deadlock/panic/happens-before race; " +
+		Rule: "all shapes {1..2 rules} x {1,2 when-bindings} x {no condition, pattern condition yielding 0/1/2 bindings, a disjunction of two code terms of which one adds a variable} x {1 action, 2 actions, 2 actions the first throwing} x serialActions off/on/only-r1/only-r2 x state, each event processed under the controlled scheduler with deviation bound 1 (quick) / 2 (thorough); oracle: recorded executions (tag + visible variables) = expected multiset, work tree nodes, Values, dispositions, no deadlock/panic/happens-before race; " +
 			"states = distinct observed outcomes, traces = schedules executed; non-trivial = distinct (shape, outcome)",
 		Assumptions: []string{
 			"actions come from one template family that reports the candidate variables x,y,e,event,location,ruleId,z it can see",
